@@ -20,7 +20,7 @@ def check(pid, **kw):
 
 RULE_LOCAL = ("strings are enumerated once each by the L1 odometer (all token strings up to the bound over the class alphabet); "
               "a string counts as non-trivial when it has >= 2 bytes and the reference automaton is still alive before its last byte "
-              "(L2/L3/sweep strings are evaluated too but not counted here, they may repeat L1 strings)")
+              "(L2/L3/sweep strings, the scalar-surrounding product and the 'huge' lengths 2^8..2^32 are evaluated too but not counted here, they may repeat L1 strings)")
 
 check('C02', level='model_checking', steps=[dict(src='drv/local.c', variant='plain', defs=[], name='local-ascii')],
       rule=RULE_LOCAL, deadline=dict(quick=240, thorough=3000),
@@ -30,17 +30,22 @@ check('C03', level='model_checking', steps=[dict(src='drv/local.c', variant='pla
       mc_keys=dict(states='ref_states', transitions='ref_transitions'))
 
 check('C04', level='exploration', steps=[dict(src='drv/c04.c', variant='plain', name='domain')],
-      rule=("every string is generated once per layer (L1 odometer over 8 classes; L2 base x position x byte; L3 length generators incl. the label-count sweep n = 1..140 equal labels of 1..63 characters); "
+      rule=("every string is generated once per layer (L1 odometer over 8 classes; L2 base x position x byte; L3 length generators incl. the label-count sweep n = 1..140 equal labels of 1..63 characters, each also behind a 64-octet local part); "
             "non-trivial = L1 strings of >= 2 bytes containing a dot or hyphen (the structure rules are exercised); counted by the driver"),
       deadline=dict(quick=240, thorough=3000))
 
-check('C05', level='exploration', steps=[dict(src='drv/c05.c', variant='plain', name='literal')],
-      rule=("each generator emits every case once (token odometers 'raw' and 'in', structured v4/v6 products with 27 group spellings, byte-position sweeps), every literal behind 3 local-part shapes, the part validators also with 14 tails after the end pointer; "
+SHIMWRAP = '-Wl,--wrap=malloc,--wrap=free,--wrap=strndup,--wrap=strdup,--wrap=calloc'
+check('C05', level='exploration', steps=[dict(src='drv/c05.c', variant='plain', name='literal'),
+                                           # the other two back ends have their own copies of the result-record macros and of eav_is_email: the structured generators again on
+                                           # those builds (stub IDN API of drv/shim.c, every malloc'ed block pre-filled with 0xA5 so that a forgotten flag reads as set)
+                                           dict(src='drv/c05.c', variant='idnkit', name='literal-idnkit', extra_src=['drv/shim.c'], ldflags=[SHIMWRAP], args=['--structured-only']),
+                                           dict(src='drv/c05.c', variant='idn', name='literal-idn', extra_src=['drv/shim.c'], ldflags=[SHIMWRAP], args=['--structured-only'])],
+      rule=("each generator emits every case once (token odometers 'raw' and 'in', structured v4/v6 products with 27 group spellings, byte-position sweeps), every literal behind 3 local-part shapes, the part validators also with 14 tails after the end pointer; the structured generators again on the idn and idnkit builds with every malloc'ed block pre-filled; "
             "non-trivial = odometer strings that start with '[' (raw) or contain ':' or '.' (bracket content) and have >= 3 bytes; counted by the driver"),
       deadline=dict(quick=240, thorough=3000))
 
 check('C01', level='exploration', steps=[dict(src='drv/c01.c', variant='plain', name='email')],
-      rule=("each generator emits every case once (L1 odometer over 12 classes, L2 templates x bytes, L3 length/placement generators, 'huge' lengths k*2^8+d and k*2^16+d - thorough also 2^24, 2^31, 2^32 - where a narrow counter wraps), every case "
+      rule=("each generator emits every case once (L1 odometer over 12 classes, L2 templates x bytes, L3 length/placement generators, 'huge' lengths k*2^8+d and k*2^16+d - thorough also 2^24, 2^31, 2^32 - where a narrow counter wraps, the product local part 1..70 x domain 240..262), every case "
             "is run in 4 modes x tld_check off/on; non-trivial = L1 strings containing an '@' with bytes on both sides; counted by the driver"),
       deadline=dict(quick=240, thorough=3000))
 
@@ -54,18 +59,18 @@ check('C11', level='exploration', steps=[dict(src='drv/c11.c', variant='plain', 
 
 check('C07', level='exploration', steps=[dict(src='drv/tld.c', variant='plain', name='tld')],
       rule=("every CSV row x 5 case variants x 0-4 preceding labels drawn from 8 label shapes, every near miss of every row (proper prefixes/suffixes, deletions, "
-            "substitutions and insertions over [a-z0-9-]) after two different prefixes, every 1-3 character last label, every U-label of raw.csv in mode 6531, every row of the library's own tld_list as last label; "
+            "substitutions and insertions over [a-z0-9-]) after two different prefixes, every 1-3 character last label, every U-label of raw.csv in mode 6531, every row of the library's own tld_list as last label, the label-depth corpus (24 suffixes behind all sequences of 0-4 labels over 6 shapes, behind 5..126 one-letter labels, reserved-name prefixes/suffixes); "
             "distinct_nontrivial counts only the lower-/upper-case row spellings x prefixes, which are pairwise distinct by construction (near misses may repeat)"),
       deadline=dict(quick=300, thorough=1200))
 check('C09', level='exploration', steps=[dict(src='drv/tld.c', variant='plain', defs=['-DC09'], name='reserved')],
       rule=("8 reserved suffixes x preceding label of every length 0..63 (5 contents incl. 7-letter words) x all 2^letters case patterns (1 label) / 5 patterns (2-3 labels, "
-            "second label of every length 1..63, third label lengths 1..63 step), plus every one-edit neighbour of each suffix behind 9 prefixes in 2 cases; "
+            "second label of every length 1..63, third label lengths 1..63 step), plus every one-edit neighbour of each suffix behind 9 prefixes in 2 cases, plus the label-depth corpus; "
             "distinct_nontrivial counts the kind-0 single-label family (pairwise distinct by construction)"),
       deadline=dict(quick=300, thorough=1200))
 
 check('C08', level='exploration', steps=[dict(src='drv/c08.c', variant='plain', name='policy')],
       rule=("complete product: 2048 masks x 4 modes x tld_check on/off x {two real addresses per class present in punycode.csv, 3 reserved names, unlisted TLD, single label, "
-            "IPv4/IPv6 literal, 4 syntactically invalid addresses} + with tld on a caller-installed callback returning each class 1..9, 0 and each negative code; plus the 'veto' product: 7 address corpora x 14 masks (0, all, default, each single bit) x tld on/off x 4 modes; "
+            "IPv4/IPv6 literal, 4 syntactically invalid addresses} + with tld on a caller-installed callback returning each class 1..9, 0 and each negative code; plus the 'veto' product: 9 address corpora (incl. label depth and table rows) x 14 masks (0, all, default, each single bit) x tld on/off x 4 modes, four oracles; "
             "every tuple is distinct by construction and non-trivial (it exercises one arm of the policy switch with one mask)"),
       deadline=dict(quick=300, thorough=600))
 
@@ -104,7 +109,7 @@ RULE_HIST = ("explicit-state BFS: a state is the canonical serialisation of the 
 check('C13', level='model_checking', steps=[dict(builder=build_hist, name='hist-c13', prop='C13', backends=['idn2']),
                                              dict(builder=build_hist, name='hist-c13-two-objects', prop='C13', backends=['idn2'], xargs=['--two-objects'])],
       rule=RULE_HIST + "; plus two complete pair products on real objects: every ordered pair of the 1296 addresses x@b.XY in 3 configurations, and every ordered pair of 150 feature addresses x every ordered pair "
-           "of the 8 (mode, tld_check) configurations on two objects and on one (mode switch in between), each second outcome compared with the fresh-library-state outcome",
+           "of the 8 (mode, tld_check) configurations on two objects and on one (mode switch in between), each second outcome compared with the fresh-library-state outcome; and 17 class / form representatives x 14 masks x 4 modes right after each of the 150 feature addresses",
       deadline=dict(quick=240, thorough=2400),
       mc_keys=dict(states='states', transitions='transitions'), traces_key='histories_replayed')
 
@@ -133,10 +138,10 @@ def build_esched(bdir, step):
     if rc: raise RuntimeError('esched build failed: %s\n%s' % (' '.join(cmd), out))
     return exe
 
-import c14tsan
-check('C14', level='model_checking', steps=[dict(builder=build_esched, name='esched'), dict(kind='py', name='tsan', fn=c14tsan.run)],
+import c14tsan, c14imports
+check('C14', level='model_checking', steps=[dict(builder=build_esched, name='esched'), dict(kind='py', name='tsan', fn=c14tsan.run), dict(kind='py', name='imports', fn=c14imports.run)],
       rule=("a state is (scheduling points passed by each thread, digest of all memory the threads share); states are distinct by construction of the visited set; "
-            "every execution is a complete run of real pthreads under the controlled scheduler; distinct_nontrivial = distinct states reached over all harnesses"),
+            "every execution is a complete run of real pthreads under the controlled scheduler; distinct_nontrivial = distinct states reached over all harnesses; the scheduler's model of libc (every call one atomic step without hidden state) is closed by enumerating the import table of the library objects against the MT-Unsafe list"),
       deadline=dict(quick=240, thorough=3000),
       mc_keys=dict(states='states', transitions='transitions'), traces_key='schedules_executed')
 
